@@ -49,6 +49,12 @@ def tie_project(rng, root):
             out.append(func_with_complexity("f%d_%d" % (m, k), rng.choice([3, 3, 3, 6])))
         for k in range(rng.randint(1, 3)):
             out.append("def dead%d_%d(a):\n    for i in range(a):\n        if i:\n            break\n            a += 1\n        else:\n            continue\n            a -= 1\n    return a\n    a = 0\n" % (m, k))
+        # dead code whose blocks share a source span (one-line compound statements, several statements on one line): findings that tie on
+        # (start line, end line) and are only ordered by the last tie-breaker of the comparator
+        for k in range(rng.randint(1, 2)):
+            out.append("def deadline%d_%d(items, discount, ctx):\n    total = 0\n    return total\n    if discount: total -= discount\n    for item in items: total += item\n"
+                       "    while total: total -= 1\n    with ctx: total = 1\n    total = 2; total += 3\n    try: total = 4\n    except ValueError: total = 5\n" % (m, k))
+            out.append("def deadloop%d_%d(items):\n    for item in items:\n        continue\n        if item: item += 1\n        while item: item -= 1\n    raise ValueError(items)\n    if items: items = None\n" % (m, k))
         for k in range(rng.randint(2, 4)):
             out.append("class Dep%d_%d:\n    pass\n" % (m, k))
         for k in range(rng.randint(2, 4)):
